@@ -238,12 +238,27 @@ Definition sproc := (Z * Z * list Z)%type.                      (* pid, appid, t
 Definition sloom := (name * list sproc * list (Z * Z))%type.    (* name, procs, cpus (index, phyid) *)
 Definition system := list sloom.
 
-Definition sort_loom (st : state) (l : name) : sloom :=
-  let ps := isort (fun p q => if rank_enabled st l then rank_of st (l, p) <=? rank_of st (l, q) else p <=? q)
-                  (procs_of st l) in
+(* loom.c by_rank / by_pid and system.c cmp_loom_rank / cmp_loom_id as boolean orders ("cmp <= 0").
+   [tb] = true: the code as repaired by patches/fix-c15-rank-ties.diff, which breaks rank ties by PID
+   (processes) and by name (looms); [tb] = false: the code before, where equal ranks compare equal and the
+   stable sort keeps the enumeration order (kept for C15_union_rank_ties_refuted_old). *)
+Definition proc_le (tb : bool) (st : state) (l : name) (p q : Z) : bool :=
+  if rank_enabled st l then
+    if tb then (rank_of st (l, p) <? rank_of st (l, q)) || ((rank_of st (l, p) =? rank_of st (l, q)) && (p <=? q))
+    else rank_of st (l, p) <=? rank_of st (l, q)
+  else p <=? q.
+Definition loom_le (tb : bool) (st : state) (by_rank : bool) (a b : name) : bool :=
+  if by_rank then
+    if tb then (rank_min st a <? rank_min st b) || ((rank_min st a =? rank_min st b) && str_le a b)
+    else rank_min st a <=? rank_min st b
+  else str_le a b.
+
+Definition sort_loom_gen (tb : bool) (st : state) (l : name) : sloom :=
+  let ps := isort (proc_le tb st l) (procs_of st l) in
   (l,
    map (fun p => (p, app_of st (l, p), isort Z.leb (threads_of st (l, p)))) ps,
    isort (fun c d => snd c <=? snd d) (cpus_of st l)).
+Definition sort_loom := sort_loom_gen true.
 
 Fixpoint nodupb (l : list Z) : bool :=
   match l with [] => true | x :: r => negb (existsb (Z.eqb x) r) && nodupb r end.
@@ -257,20 +272,26 @@ Definition loom_bad (sl : sloom) : bool :=
   || existsb (fun c => Z.of_nat (length cs) <=? fst c) cs
   || negb (nodupb (map fst cs)).
 
-Definition finish (st : state) : outcome system :=
+Definition finish_gen (tb : bool) (st : state) : outcome system :=
   let L := st_looms st in
   if existsb (rank_incomplete st) L then Err
   else
     let by_rank := forallb (rank_enabled st) L in
-    let Ls := isort (fun a b => if by_rank then rank_min st a <=? rank_min st b else str_le a b) L in
-    let sys := map (sort_loom st) Ls in
+    let Ls := isort (loom_le tb st by_rank) L in
+    let sys := map (sort_loom_gen tb st) Ls in
     if existsb loom_bad sys then Err else Ok sys.
+Definition finish := finish_gen true.
 
 Definition build_gen addcpu (m : list stream_meta) : outcome system := bind (raw_gen addcpu m) finish.
 
 (* The model of the repaired code. *)
 Definition raw := raw_gen add_cpu.
 Definition build := build_gen add_cpu.
+
+(* the code before patches/fix-c15-rank-ties.diff: no tie-break on equal ranks *)
+Module NoTieBreak.
+  Definition build (m : list stream_meta) : outcome system := bind (raw m) (finish_gen false).
+End NoTieBreak.
 
 (* ---------------------------------------------- global lists and rows *)
 (* init_global_lists / init_global_indices: rows are 1 + gindex *)
